@@ -19,6 +19,10 @@ func (fr *Frame) exec(ins ssa.Instruction) bool {
 		fr.cx.newN++
 		loc := b.NewObj(fr.cx.newN)
 		el := n.Type().Underlying().(*types.Pointer).Elem()
+		if fr.cx.allocType == nil {
+			fr.cx.allocType = map[int]types.Type{}
+		}
+		fr.cx.allocType[fr.cx.newN] = el
 		fr.zeroInit(loc, el)
 		fr.vals[n] = Val{t: loc, typ: n.Type()}
 	case *ssa.BinOp:
@@ -117,7 +121,16 @@ func (fr *Frame) exec(ins ssa.Instruction) bool {
 		addr := fr.val(n.Addr)
 		v := fr.val(n.Val)
 		fr.safety("nil-deref:store", n.Pos(), b.Not(b.IsNil(addr.t)))
+		fr.checkGuard(addr.t, n.Val.Type(), n.Pos(), "store")
 		fr.cx.store(fr.st, addr.t, n.Val.Type(), v.t)
+		if locCtor(def(addr.t)) != "New" { // storing into a plain local does not publish the value
+			fr.cx.noteEscape(v.t)
+		}
+		if v.fn != nil {
+			for _, bv := range v.fn.bindings {
+				fr.cx.noteEscape(bv.t)
+			}
+		}
 		if v.fn != nil {
 			fr.cx.noteFuncStore(addr.t, v.fn)
 		}
@@ -161,7 +174,7 @@ func (fr *Frame) exec(ins ssa.Instruction) bool {
 		}
 		fr.defers = append(fr.defers, d)
 	case *ssa.RunDefers:
-		fr.runDefers()
+		fr.runDefersAt(n.Block())
 		if isFalse(fr.reach) {
 			return true
 		}
@@ -204,6 +217,10 @@ func (fr *Frame) needZeroAxioms(el types.Type) {
 }
 
 func (fr *Frame) zeroInit(loc *Term, t types.Type) {
+	if ov, ok := overlayOf(t); ok {
+		fr.zeroInit(fr.b().Elem(loc, fr.b().BV(0, 64)), ov)
+		return
+	}
 	if fr.cx.enumerable(t) {
 		fr.cx.store(fr.st, loc, t, fr.w().zero(t))
 		// ghost fields start at zero too
@@ -243,6 +260,9 @@ func (fr *Frame) zeroGhosts(loc *Term, t types.Type) {
 
 func isStructType(t types.Type) bool {
 	if _, ok := opaqueLE(t); ok {
+		return false
+	}
+	if _, ok := overlayOf(t); ok {
 		return false
 	}
 	_, ok := t.Underlying().(*types.Struct)
@@ -367,6 +387,19 @@ func (fr *Frame) unop(n *ssa.UnOp) Val {
 		r := Val{t: b.Name(n.Name(), v), typ: n.Type()}
 		if inv := fr.cx.typeInv(r.t, n.Type()); !isTrue(inv) {
 			fr.assume(inv) // every stored value satisfies the invariant of its type
+		}
+		if len(fr.w().fieldAssume) > 0 {
+			if d := def(x.t); locCtor(d) == "Fld" {
+				var fid int
+				fmt.Sscan(d.args[1].op, &fid)
+				if bg := fr.w().fieldAssume[fid]; bg != nil {
+					env := &SpecEnv{cx: fr.cx, pkg: bg.pkg, vars: map[string]Val{"self": {t: d.args[0], typ: types.NewPointer(bg.structT)}}, cur: fr.st, old: fr.entry}
+					if g := fr.evalClause(env, bg.g.Cond); g != nil {
+						fr.assume(g)
+						fr.cx.trust("modelling bound assumed on every read of " + bg.g.TypeName + "." + bg.g.Field + ": " + bg.g.Cond.Text)
+					}
+				}
+			}
 		}
 		if r.t.sort == SFunc {
 			r.fn = fr.cx.funcAt(x.t)
